@@ -28,10 +28,13 @@ def run_one(m, props, tier, scale):
                         '/repo/regions', tmp + '/'], check=True)
         path = os.path.join(tmp, 'regions', m['file'])
         src = open(path).read()
-        if src.count(m['old']) != m.get('count', 1):
-            return {p: f"PATCH-ERROR old text occurs {src.count(m['old'])}x"
-                    for p in props}
-        open(path, 'w').write(src.replace(m['old'], m['new']))
+        edits = m.get('edits') or [(m['old'], m['new'])]
+        for old, new in edits:
+            if src.count(old) != m.get('count', 1):
+                return {p: f"PATCH-ERROR old text occurs {src.count(old)}x"
+                        for p in props}
+            src = src.replace(old, new)
+        open(path, 'w').write(src)
         if path.endswith('.c'):
             os.utime(path, None)
         out = {}
